@@ -92,11 +92,13 @@ CLAIMED = {
                      "first item followed by a longer silence and never otherwise; nothing afterwards - for every period, script and ending), C16_delay_by_d, C16_sample_debounce_in_order_once (the one-place slot between the source and the single consuming thread of sample / debounce: for every interleaving only emitted items, in source order, none twice). PARTIAL: WHEN debounce fires (its period) is not modelled; time_interval / timestamp are not checked (they read the real clock). Tie: periods 3-20 ms, gap scripts of 1-4 items with gaps around the period (never equal to it), endings complete / error / none, a consumer that "
                      "takes time, timer / interval / sampled Observables subscribed again; the extracted spec_timeout / spec_delay are evaluated on every script and compared with the (virtual time, event) pairs at the subscriber; interval/timer exact times."),
     "C17": dict(engine="coq-seq", design="DESIGN.md 6 C17",
-                technique="machine-checked proof in Coq (slot-emptiness lemmas on the worklist machine, the frozen invariant for every continuation, the node-level teardown theorem for the whole catalogue) + reference-counted tokens in every callback, operator closure and item on the implementation",
+                technique="machine-checked proof in Coq (slot-emptiness lemmas on the worklist machine, the frozen invariant for every continuation, the node-level teardown theorem for the whole catalogue) + reference-counted tokens in every callback, operator closure, posted task and item on the implementation, sequentially and under the deterministic scheduling runtime",
                 text="Theorems C17_terminal_empties_the_slots / C17_unsubscribe_empties_the_slots / C17_slots_stay_empty / C17_upstream_slots_empty: a terminal that passes the gate and Observer::unsubscribe empty all callback "
                      "slots (unsubscribe also the teardown slot); for every pipeline and every continuation the subscriber's slots stay empty; every upstream observer of an ended controller is unsubscribed and its map is empty "
                      "(whole catalogue). Partial: that empty slots mean dropped closures and items is Rust's ownership (trusted meta-argument), and the propagation through a whole pipeline tree is checked on the model's final world "
-                     "(closure_ok), not proved globally. Tie: tokens captured in every user callback, operator closure and item must all be released after the subscription ended in each of the three ways and the handles were dropped."),
+                     "(closure_ok), not proved globally. Tie, sequential: tokens captured in every user callback, operator closure and item must all be released after the subscription ended in each of the three ways and the handles were dropped "
+                     "(also for chains shared through ref_count / replay / publish and for observe_on / subscribe_on with a user-defined synchronous scheduler that keeps its last job). Tie, concurrent: the same token count at quiescence under the "
+                     "deterministic scheduling runtime for every thread-backed operator and for slow consumers whose backlog is still queued when the subscription ends. Defect D22 (ref_count / replay reference cycle) found here and repaired."),
     "C18": dict(engine="coq-conc", design="DESIGN.md 6 C18",
                 technique="machine-checked proof in Coq (invariant + bounded-progress lemma of a poller/source transition system over all interleavings) + correspondence under a deterministic scheduling runtime (result and poll count within the model's exhaustively explored outcome set)",
                 text="Theorems C18_result / C18_no_lost_wakeup / C18_eventually_ready: in the to_vec model (waker lock held across the done test and the store; done set before the waker is read) every interleaving, "
